@@ -284,11 +284,16 @@ package actor
 // core, do not touch the registry, and leave the core fields the later steps read alone)
 //@ func (*killedHandler).handleChildDeath
 //@   trusted
-//@   requires h.ctx != nil && h.message != nil
-//@   modifies h.ctx.children[*]
+//@   requires h.ctx != nil && h.message != nil && schedok(h.ctx)
+//@   modifies h.ctx.children[*], h.ctx.scheduler.jobKeys[*], gmap(schedtried), gmap(scheduled), gmap(deleted)
+//@   ensures  schedok(h.ctx)
 //@   ensures  len(h.ctx.children) <= old(len(h.ctx.children))
+// (user code: it has the full ActorContext, so it may schedule and cancel jobs of this actor)
 //@ func (*killedHandler).executeBehavior
 //@   trusted
+//@   requires h.ctx != nil && schedok(h.ctx)
+//@   modifies h.ctx.scheduler.jobKeys[*], gmap(schedtried), gmap(scheduled), gmap(deleted)
+//@   ensures  schedok(h.ctx)
 // the jobs of an actor die with it (C20): every job recorded in its scheduler is deleted, nothing stays recorded
 //@ func (*killedHandler).cleanupScheduler
 //@   requires h.ctx != nil && ctxwf(h.ctx) && schedok(h.ctx)
@@ -311,7 +316,7 @@ package actor
 // termination is reported ONCE per actor: released1 is an invariant of every context (see its definition)
 //@   requires released1(c)
 //@   ensures  released1(c)
-//@   modifies c.children[*], c.state, c.envelop, c.actor, c.behaviorStack.behaviors, c.zombie, c.restarting, c.scheduler.jobKeys[*], gmap(told), gmap(toldn), gmap(tells), gmap(unregistered), gmap(unsuball), gmap(published), gmap(resumes), gmap(deleted)
+//@   modifies c.children[*], c.state, c.envelop, c.actor, c.behaviorStack.behaviors, c.zombie, c.restarting, c.scheduler.jobKeys[*], gmap(told), gmap(toldn), gmap(tells), gmap(unregistered), gmap(unsuball), gmap(published), gmap(resumes), gmap(deleted), gmap(schedtried), gmap(scheduled)
 // C20: an actor that is released (or restarted) leaves no scheduled job behind
 //@   ensures  gcount(unregistered, c) > old(gcount(unregistered, c)) ==> len(c.scheduler.jobKeys) == 0
 //@   ensures  schedok(c) && zombieNoJobs(c)
@@ -361,7 +366,7 @@ package actor
 //@   requires watchersOK(c) && schedok(c) && zombieNoJobs(c) && released1(c)
 //@   requires c.system.futureAgents != nil && !held(c.system.futureLock) && regfut(c.system)
 //@   requires forall p string :: p in c.children ==> c.children[p] != nil
-//@   modifies c.children[*], c.state, c.envelop, c.actor, c.behaviorStack.behaviors, c.zombie, c.restarting, c.scheduler.jobKeys[*], anyold, gmap(told), gmap(toldn), gmap(tells), gmap(unregistered), gmap(unsuball), gmap(published), gmap(resumes), gmap(deleted), gmap(chclosed), gmap(piped), gmap(pipedn), ghost(calls_closer), ghost(calls_behavior)
+//@   modifies c.children[*], c.state, c.envelop, c.actor, c.behaviorStack.behaviors, c.zombie, c.restarting, c.scheduler.jobKeys[*], anyold, gmap(told), gmap(toldn), gmap(tells), gmap(unregistered), gmap(unsuball), gmap(published), gmap(resumes), gmap(deleted), gmap(schedtried), gmap(scheduled), gmap(chclosed), gmap(piped), gmap(pipedn), ghost(calls_closer), ghost(calls_behavior)
 //@   ensures  gcount(toldn, kKill(!message.Poison)) == old(gcount(toldn, kKill(!message.Poison))) + old(len(c.children))
 //@   ensures  forall p string :: old(p in c.children) ==> gcount(told, old(c.children[p]), kKill(!message.Poison)) > old(gcount(told, old(c.children[p]), kKill(!message.Poison)))
 //@   ensures  gcount(unregistered, c) <= old(gcount(unregistered, c)) + 1
@@ -545,7 +550,7 @@ package actor
 //@   requires typeis(envMessage(envelop), "*actor.SchedulerMessage") ==> !typeis(unboxed(envMessage(envelop), "*actor.SchedulerMessage").Message, "*vivid.OnKilled")
 //@   requires typeis(envMessage(envelop), "*vivid.OnKilled") ==> unboxed(envMessage(envelop), "*vivid.OnKilled").Ref != nil &&
 //@            (typeis(unboxed(envMessage(envelop), "*vivid.OnKilled").Ref, "*actor.Ref") ==> !nilptr(unboxed(envMessage(envelop), "*vivid.OnKilled").Ref))
-//@   modifies anyold, c.envelop, gmap(consulted), gmap(deleted), gmap(selftold), gmap(told), gmap(toldn), gmap(tells), gmap(unregistered), gmap(unsuball), gmap(published), gmap(resumes), gmap(pauses), gmap(failures), ghost(calls_behavior)
+//@   modifies anyold, c.envelop, gmap(consulted), gmap(deleted), gmap(schedtried), gmap(scheduled), gmap(selftold), gmap(told), gmap(toldn), gmap(tells), gmap(unregistered), gmap(unsuball), gmap(published), gmap(resumes), gmap(pauses), gmap(failures), ghost(calls_behavior)
 // a dead letter that itself cannot be delivered (the root has stopped) is dropped: no further work
 //@   ensures  old(deadFor(c, envelop)) && typeis(envMessage(envelop), "ves.DeathLetterEvent") ==>
 //@            (forall d *Context, t mathint :: gcount(selftold, d, t) == old(gcount(selftold, d, t))) && ghost(calls_behavior) == old(ghost(calls_behavior))
